@@ -8,6 +8,7 @@ import (
 	"encoding/json"
 	"fmt"
 	"hash/fnv"
+	"os"
 	"runtime/debug"
 	"strings"
 )
@@ -225,6 +226,15 @@ func PanicOrigin() string {
 	return ""
 }
 
+// RepoPrefix is the path prefix of the repository under test in stack traces: /repo/, or the scratch
+// copy named by VERIF_REPO when a seeded change is tried without touching /repo (bin/check does that).
+func RepoPrefix() string {
+	if r := os.Getenv("VERIF_REPO"); r != "" {
+		return strings.TrimSuffix(r, "/") + "/"
+	}
+	return "/repo/"
+}
+
 // repoFrame extracts the top-most frame of the stack that lies inside the
 // repository under test.
 func repoFrame(stack string) string {
@@ -232,7 +242,7 @@ func repoFrame(stack string) string {
 	for i := 0; i+1 < len(lines); i++ {
 		fn := lines[i]
 		loc := strings.TrimSpace(lines[i+1])
-		if strings.HasPrefix(loc, "/repo/") {
+		if strings.HasPrefix(loc, RepoPrefix()) {
 			if j := strings.LastIndex(fn, "("); j > 0 {
 				fn = fn[:j]
 			}
